@@ -26,6 +26,7 @@ SameObs(exp, o) ==
 Act(ev) ==
     CASE ev.op = "render"        -> Render(ev.n)
       [] ev.op = "register"      -> Register(ev.n, ev.v - 10)
+      [] ev.op = "regcompiled"   -> RegCompiled(ev.n, ev.v - 20, ev.b)
       [] ev.op = "put"           -> Put(ev.i, ev.n, ev.v)
       [] ev.op = "delete"        -> Delete(ev.i, ev.n)
       [] ev.op = "setcache"      -> SetCache(ev.b)
@@ -39,7 +40,7 @@ TInit == Init /\ l = 1 /\ rej = {} /\ fresh = TRUE /\ skipping = FALSE /\ skippe
 Reset == /\ l <= Len(Trace) /\ Ev.first /\ ~fresh
          /\ content' = [i \in Slots |-> [n \in Names |-> 0]] /\ mtime' = [i \in Slots |-> [n \in Names |-> 0]]
          /\ loads' = [i \in Loaders |-> [n \in Names |-> 0]] /\ cache' = [n \in Names |-> NoEntry]
-         /\ cacheOn' = TRUE /\ autoReload' = FALSE /\ clock' = 1 /\ hist' = <<>>
+         /\ cacheOn' = TRUE /\ autoReload' = InitAuto /\ clock' = 1 /\ hist' = <<>>
          /\ fresh' = TRUE /\ skipping' = FALSE
          /\ UNCHANGED <<l, rej, skipped>>
 
